@@ -95,7 +95,7 @@ def expand(job):
             yield {"mode": sp, "kind": "notations", "a": a, "d": dict(rnd.choice(recur.EXACT_IV)), "n": rnd.randint(2, 6)}
         else:
             d = recur.rand_recurrence(rnd, m, whole_anchor=rnd.random() < 0.9, maxn=rnd.choice([6, 9, 13]), allow24=True,
-                                      years=[1999, 2000, 2004, 2019, 2020] if rnd.random() < 0.3 else None)
+                                      years=[1999, 2000, 2004, 2019, 2020] if rnd.random() < 0.3 else None, whole_anchor_only=False)
             if d["a"]["hh"] == 24 and not (d["fmt"] == 1 or recur.is_exact(d["d"])):
                 # 24:00 + month/year arithmetic has no single reading (DESIGN 6.3): such anchors only with exact intervals
                 d["a"] = dict(d["a"], hh=0, mi=0 if d["a"]["prec"] != "h" else -1, ss=0 if d["a"]["prec"] == "hms" else -1)
